@@ -106,6 +106,76 @@ def gen_graph(r):
     return names, defs
 
 
+def gen_namesake_graph(r):
+    """directed family: the same simple name in the null namespace and in a named one, the null-namespace one met FIRST
+    (so it is already in the name table when the namespace-relative reference to its namesake is parsed), the relative
+    reference being the only / the last / a middle unresolved reference of its record, optionally followed by a
+    reference that shares a dependency with the namesake"""
+    ns = r.choice(["ops", "a.b", "ops.wh"])
+    x = r.choice(["Status", "Key"])
+
+    def wrap(t):
+        c = r.random()
+        if c < 0.15:
+            return {"type": "array", "items": t}
+        if c < 0.3:
+            return ["null", t]
+        if c < 0.4:
+            return {"type": "map", "values": t}
+        return t
+
+    def small(kind, tag):
+        if kind == "enum":
+            return {"type": "enum", "symbols": [tag + "A", tag + "B"]}
+        if kind == "fixed":
+            return {"type": "fixed", "size": 2 if tag == "N" else 3}
+        return {"type": "record", "fields": [{"name": tag.lower() + "v", "type": r.choice(["int", "string"])}]}
+
+    names, defs = [], []
+
+    def add(full, d):
+        tns, _, base = full.rpartition(".")
+        d = dict(d)
+        if tns and r.random() < 0.5:
+            d["name"], d["namespace"] = base, tns
+        else:
+            d["name"] = full
+        names.append(full)
+        defs.append(d)
+
+    share = r.random() < 0.5
+    top_fields = []
+    if r.random() < 0.85:
+        top_fields.append({"name": "s", "type": wrap(x)})
+    top_fields.append({"name": "o", "type": wrap(ns + ".Order")})
+    if r.random() < 0.3:
+        r.shuffle(top_fields)
+    if r.random() < 0.5:
+        top_fields.append({"name": "z", "type": "long"})
+    add("Top", {"type": "record", "fields": top_fields})
+    add(x, small(r.choice(["enum", "fixed", "record"]), "N"))
+    # the namesake inside the namespace
+    k2 = r.choice(["enum", "fixed", "record", "record"])
+    nd = small(k2, "Q")
+    if k2 == "record" and share:
+        nd["fields"].append({"name": "owner", "type": r.choice(["Money", ns + ".Money"])})
+    add(ns + "." + x, nd)
+    of = [{"name": "state", "type": wrap(x if r.random() < 0.8 else ns + "." + x)}]
+    if share:
+        of.append({"name": "cost", "type": wrap(r.choice(["Money", ns + ".Money"]))})
+    if r.random() < 0.4:
+        of.append({"name": "more", "type": wrap(ns + ".Extra")})
+        add(ns + ".Extra", small(r.choice(["enum", "fixed", "record"]), "E"))
+    if r.random() < 0.4:
+        r.shuffle(of)
+    if r.random() < 0.5:
+        of.insert(r.randint(0, len(of)), {"name": "n", "type": "int"})
+    add(ns + ".Order", {"type": "record", "fields": of})
+    if share:
+        add(ns + ".Money", small(r.choice(["fixed", "record"]), "M"))
+    return names, defs
+
+
 def reachable(names, defs):
     """the types actually used from the root, with (enclosing namespace)-resolved references"""
     idx = {n: i for i, n in enumerate(names)}
@@ -230,13 +300,18 @@ def run(tier, seed):
     try:
         for i in range(scale(tier, 350)):
             r = random.Random(seed * 19000013 + i)
-            names, defs = gen_graph(r)
+            if i % 6 == 5:
+                names, defs = gen_namesake_graph(r)
+            else:
+                names, defs = gen_graph(r)
             used = reachable(names, defs)
             d = os.path.join(base, "g%d" % i)
             os.mkdir(d)
             write_files(d, names, defs)
             inlined = inline_first_use(names, defs)
             case = {"files": {n: df for n, df in zip(names, defs)}, "root": names[0], "tags": ["types:%d" % len(used)]}
+            if i % 6 == 5:
+                run.tag("namesake-null-first")
             run.count(case, len(used) >= 3, ["types:%d" % len(used), "namespaces:%d" % len({n.rpartition('.')[0] for n in used})])
             run.cov["traces_validated_against_impl"] += 1
             try:
